@@ -623,3 +623,16 @@ Proof.
   intros l s1 s2 p H. unfold run_chain in H. destruct (fst (do_step l s1)); try discriminate.
   injection H as <-. reflexivity.
 Qed.
+
+(* ------------------------------------------------------------------ spread arguments *)
+Lemma flatten_app_l : forall a b, flatten_args (a ++ b) = (flatten_args a ++ flatten_args b)%list.
+Proof. intros. unfold flatten_args. apply flat_map_app. Qed.
+Lemma flatten_plain_l : forall es, flatten_args (map APlain es) = es.
+Proof. induction es as [|e es IH]; [reflexivity|]. cbn. unfold flatten_args in IH. rewrite IH. reflexivity. Qed.
+Lemma flatten_spread_anywhere_l : forall pre xs post,
+  flatten_args (map APlain pre ++ ASpread (EArr xs) :: map APlain post) = (pre ++ xs ++ post)%list.
+Proof.
+  intros. rewrite flatten_app_l, flatten_plain_l. f_equal.
+  change (ASpread (EArr xs) :: map APlain post) with ([ASpread (EArr xs)] ++ map APlain post)%list.
+  rewrite flatten_app_l, flatten_plain_l. cbn. rewrite app_nil_r. reflexivity.
+Qed.
